@@ -188,6 +188,31 @@ def magnitudes():
             yield {"kind": "files", "files": {"lk/Big.1.0.dsdl": d, "rns/T.1.0.dsdl": u}, "root": "rns", "lookups": ["lk"], "family": "magnitude"}
 
 
+# ---------------------------------------------------------------------------------------------------------------
+# scale: texts larger than the usual I/O block sizes (line endings and multi-byte characters exactly on block boundaries), thousands of
+# distinct literals / names in one process, long dependency chains, wide namespaces
+def scale_cases(tier):
+    from ..gen import scale as S
+
+    tails = {"valid": ["uint8 a", "@sealed"], "garbage": ["uint8 a", "$$$ ???", "@sealed"], "bad-rule": ["uint65 a", "@sealed"], "late-internal": ["@print '\\UFFFFFFFF'", "@sealed"]}
+    bs = S.BOUNDARIES if tier != "quick" else S.BOUNDARIES[:5]
+    for b in bs:
+        for what, eol in (("crlf", "\r\n"), ("cr", "\r"), ("utf8-2", "\n"), ("utf8-3", "\r\n"), ("utf8-4", "\n"), ("utf8-4", "\r\n")):
+            for tail in tails:
+                text, _first = S.straddling_text(b, what, tails[tail], eol)
+                yield {"kind": "text", "text": text, "family": "scale-file", "label": [b, what, tail]}
+    for n in (300, 1100, 2100):
+        yield {"kind": "text", "text": "".join("uint32 K%d = %d\n" % (i, 100000 + i) for i in range(n)) + "@sealed\n", "family": "scale-literals", "label": ["constants", n]}
+        yield {"kind": "text", "text": "".join("@assert %d.%d > 0x%x\n" % (50000 + i, i, i) for i in range(n)) + "@sealed\n", "family": "scale-literals", "label": ["mixed", n]}
+        yield {"kind": "text", "text": "".join("uint8 name_%d_%s\n" % (i, "x" * (i % 40)) for i in range(n // 10)) + "@sealed\n", "family": "scale-literals", "label": ["names", n]}
+    for n in (20, 60, 75, 120):
+        files, _names, _p = S.chain_namespace(n)
+        yield {"kind": "files", "files": files, "root": "cns", "family": "scale-chain", "label": n}
+    for n in (66, 130):
+        files, _names, _p = S.wide_namespace(n, legacy_every=4)
+        yield {"kind": "files", "files": files, "root": "wns", "family": "scale-wide", "label": n}
+
+
 FILENAMES = [
     "A.1.0.dsdl", "A.1.0.uavcan", "7000.A.1.0.dsdl", "A.0.1.dsdl", "A.255.255.dsdl", "A.256.0.dsdl", "A.0.0.dsdl", "A.1.dsdl", "A.dsdl", ".dsdl", "1.0.dsdl",
     "A.1.0.0.0.dsdl", "x.7000.A.1.0.dsdl", "A.-1.0.dsdl", "A.1.-0.dsdl", "A.+1.0.dsdl", "A.1_0.0.dsdl", "A. 1.0.dsdl", "A.١.0.dsdl", "A.1e1.0.dsdl", "A.0x1.0.dsdl",
@@ -214,6 +239,7 @@ def plan(tier):
     shards += [{"family": "in-dependency", "part": p, "parts": 32} for p in range(32)]
     shards += [{"family": "names", "part": p, "parts": 8} for p in range(8)]
     shards += [{"family": "magnitudes", "part": p, "parts": 16} for p in range(16)]
+    shards += [{"family": "scale", "part": p, "parts": 8} for p in range(8)]
     if tier != "quick":
         shards += [{"family": "mutations2", "part": p, "parts": 128} for p in range(128)]
     shards += H.plan_shards(['faults'])
@@ -287,6 +313,10 @@ def cases(shard, tier):
                 if i % shard["parts"] == shard["part"]:
                     yield {"kind": "text", "text": s, "family": "catalogue", "where": "dependency"}
                 i += 1
+    elif fam == "scale":
+        for i, c in enumerate(scale_cases(tier)):
+            if i % shard["parts"] == shard["part"]:
+                yield c
     elif fam == "magnitudes":
         for i, c in enumerate(magnitudes()):
             if i % shard["parts"] == shard["part"]:
